@@ -219,7 +219,7 @@ class Engine:
                 self.vc_keys.add(key)
                 self.vcs.append(VC(name, [], [], z3.BoolVal(True), meta=dict(meta or {}, trivial=True)))
             return
-        hyps = self.hyps() + list(extra_hyps)
+        hyps = self.hyps() + list(extra_hyps) + self.hint_lemma_instances(name)
         key = (name, tuple(h.get_id() for h in hyps), goal.get_id(),
                tuple(id(s) for s in self.st.schemas))
         if key in self.vc_keys:
@@ -233,6 +233,9 @@ class Engine:
         self.vcs.append(vc)
 
     def hint_terms(self):
+        return []
+
+    def hint_lemma_instances(self, name):
         return []
 
     def safety(self, kind, goal, node=None):
